@@ -91,6 +91,7 @@ pub(super) fn poll_connect(
             peer,
             snd_nxt: isn.wrapping_add(1),
             snd_una: isn.wrapping_add(1),
+            snd_max: isn.wrapping_add(1),
             snd_wnd: DEFAULT_WINDOW,
             rcv_nxt: 0,
             send_buf: BytesMut::new(),
@@ -316,8 +317,13 @@ fn handle_established(
         // bytes drained or the window grew.
         if s.flags.ack {
             let acked = s.ack.wrapping_sub(tcb.snd_una);
-            let in_flight = tcb.snd_nxt.wrapping_sub(tcb.snd_una);
-            if acked > 0 && acked <= in_flight {
+            // Valid up to the highest sequence number ever sent, not
+            // just up to `snd_nxt`: a retransmit rewinds `snd_nxt` to
+            // `snd_una` and may re-emit less than was out before (the
+            // window can be smaller by then), while ACKs for the
+            // original transmissions are still on their way.
+            let sent = tcb.snd_max.wrapping_sub(tcb.snd_una);
+            if acked > 0 && acked <= sent {
                 // FIN (if sent) sits at `fin_seq` and consumes one seq
                 // past the data. Don't try to drain buffer bytes for
                 // the FIN's byte.
@@ -330,6 +336,11 @@ fn handle_established(
                     let _ = tcb.send_buf.split_to(data_bytes as usize);
                 }
                 tcb.snd_una = s.ack;
+                if (tcb.snd_nxt.wrapping_sub(tcb.snd_una) as i32) < 0 {
+                    // ACK overtook a rewound `snd_nxt`: nothing below
+                    // `snd_una` needs sending again.
+                    tcb.snd_nxt = tcb.snd_una;
+                }
                 // Progress — retx machinery resets.
                 tcb.egress_since_ack = 0;
                 tcb.retx_attempts = 0;
@@ -485,6 +496,7 @@ fn accept_syn(
             peer: remote,
             snd_nxt: isn.wrapping_add(1),
             snd_una: isn.wrapping_add(1),
+            snd_max: isn.wrapping_add(1),
             snd_wnd: s.window,
             rcv_nxt: s.seq.wrapping_add(1),
             send_buf: BytesMut::new(),
@@ -1315,12 +1327,18 @@ fn segment_one(k: &mut Kernel, fd: Fd) {
                 let payload = Bytes::copy_from_slice(&tcb.send_buf[start..end]);
                 let seq = tcb.snd_nxt;
                 tcb.snd_nxt = tcb.snd_nxt.wrapping_add(n as u32);
+                if (tcb.snd_nxt.wrapping_sub(tcb.snd_max) as i32) > 0 {
+                    tcb.snd_max = tcb.snd_nxt;
+                }
                 (seq, payload, false)
             } else if fin_pending && wnd_remaining > 0 {
                 // Emit the FIN. It occupies one sequence number but
                 // carries no payload.
                 let seq = tcb.snd_nxt;
                 tcb.snd_nxt = tcb.snd_nxt.wrapping_add(1);
+                if (tcb.snd_nxt.wrapping_sub(tcb.snd_max) as i32) > 0 {
+                    tcb.snd_max = tcb.snd_nxt;
+                }
                 (seq, Bytes::new(), true)
             } else {
                 return;
